@@ -51,11 +51,34 @@ def is_next_uid(node, selfn):
     )
 
 
-def tag_of(expr, selfn, default_src):
+def none_flags(fn_node):
+    """Locals bound exactly once to `<name> is None` / `<name> is not None`: flag name -> the comparison."""
+    from ..cfg import own_statements as _own
+
+    defs = {}
+    for st in _own(fn_node):
+        if isinstance(st, ast.Assign):
+            for t in st.targets:
+                if isinstance(t, ast.Name):
+                    defs.setdefault(t.id, []).append(st.value)
+    out = {}
+    for k, vs in defs.items():
+        if len(vs) == 1 and isinstance(vs[0], ast.Compare) and len(vs[0].ops) == 1 and isinstance(vs[0].ops[0], (ast.Is, ast.IsNot)) and isinstance(vs[0].left, ast.Name) and isinstance(vs[0].comparators[0], ast.Constant) and vs[0].comparators[0].value is None:
+            out[k] = vs[0]
+    return out
+
+
+def tag_of(expr, selfn, default_src, flags=None):
     if is_next_uid(expr, selfn):
         return ("AUTO",)
     if isinstance(expr, ast.IfExp):
         t = expr.test
+        if flags:
+            if isinstance(t, ast.Name) and t.id in flags:
+                t = flags[t.id]
+            elif isinstance(t, ast.UnaryOp) and isinstance(t.op, ast.Not) and isinstance(t.operand, ast.Name) and t.operand.id in flags:
+                c = flags[t.operand.id]
+                t = ast.Compare(left=c.left, ops=[ast.IsNot() if isinstance(c.ops[0], ast.Is) else ast.Is()], comparators=c.comparators)
         pname = None
         auto_when = None  # 'none' : body taken when P is None/falsy
         if isinstance(t, ast.Compare) and len(t.ops) == 1 and isinstance(t.left, ast.Name) and isinstance(t.comparators[0], ast.Constant) and t.comparators[0].value is None:
@@ -84,6 +107,7 @@ class KeyDefs:
     def __init__(self, cfg: CFG, fn_node, var, selfn):
         self.cfg, self.fn_node, self.var, self.selfn = cfg, fn_node, var, selfn
         self.params = {a.arg for a in fn_node.args.posonlyargs + fn_node.args.args + fn_node.args.kwonlyargs}
+        self.flags = none_flags(fn_node)
 
     def gen(self, st):
         """Tag generated by statement st for self.var, or None."""
@@ -91,12 +115,12 @@ class KeyDefs:
         if isinstance(st, ast.Assign):
             for t in st.targets:
                 if isinstance(t, ast.Name) and t.id == v:
-                    return tag_of(st.value, self.selfn, v)
+                    return tag_of(st.value, self.selfn, v, self.flags)
                 if isinstance(t, (ast.Tuple, ast.List)):
                     for i, te in enumerate(t.elts):
                         if isinstance(te, ast.Name) and te.id == v:
                             if isinstance(st.value, (ast.Tuple, ast.List)) and len(st.value.elts) == len(t.elts):
-                                return tag_of(st.value.elts[i], self.selfn, v)
+                                return tag_of(st.value.elts[i], self.selfn, v, self.flags)
                             return ("USER", v)
         if isinstance(st, (ast.For, ast.AsyncFor)):
             for n in ast.walk(st.target):
@@ -318,7 +342,19 @@ def check_site(repo, eng, res, fn, st, key, how, prop=PROP):
             if kind == "AUTO":
                 res.inst("U-PROV", desc + " -> AUTO", True)
                 continue
-            ef = edge_filter(val, nf)
+            # flags bound once to `<id> is None` / `<id> is not None` take the value this case gives them
+            val_case = dict(val)
+            for fst in own_statements(fn.node):
+                if isinstance(fst, ast.Assign) and len(fst.targets) == 1 and isinstance(fst.targets[0], ast.Name) and isinstance(fst.value, ast.Compare) and len(fst.value.ops) == 1 and isinstance(fst.value.left, ast.Name) and fst.value.left.id in nf and isinstance(fst.value.comparators[0], ast.Constant) and fst.value.comparators[0].value is None:
+                    fname = fst.targets[0].id
+                    if sum(1 for x in own_statements(fn.node) if isinstance(x, ast.Assign) and any(isinstance(t, ast.Name) and t.id == fname for t in x.targets)) != 1:
+                        continue
+                    is_none = nf[fst.value.left.id]
+                    if isinstance(fst.value.ops[0], ast.Is):
+                        val_case[fname] = is_none
+                    elif isinstance(fst.value.ops[0], ast.IsNot):
+                        val_case[fname] = not is_none
+            ef = edge_filter(val_case, nf)
             if st not in cfg.reachable(ENTRY, edge_ok=ef):
                 continue
             res.inst("U-PROV", desc + f" -> USER({src})", True)
